@@ -210,7 +210,11 @@ def check_language(ctx: Ctx):
         if isinstance(v, ast.Call) and head_name(v.func) == "simplify_logic":
             n += 1
             # reached only when expr is not Xor/And/Or/Not
-            excl = any((not pol) and "isinstance" in f and "And" in f and "Or" in f and "Not" in f for f, pol in facts) and any((not pol) and f"isinstance({p}, Xor)" in f for f, pol in facts)
+            ruled_out = set()
+            for e_, pol_ in guard_facts(fi, r):
+                if not pol_ and isinstance(e_, ast.Call):
+                    ruled_out |= set(q.isinstance_heads(e_, p) or [])
+            excl = {"And", "Or", "Not", "Xor"} <= ruled_out
             ctx.check(excl, "DP-LANG", fi, "simplify_logic applied only to leaves", "reached only when the node is not And/Or/Not/Xor", "simplify_logic (which may return Or with any number of operands) is applied to a connective and its result returned whole", r)
         elif isinstance(v, ast.Name) and v.id != p:
             n += 1
